@@ -451,6 +451,15 @@ class Transaction:
                 # Known-pre-commit-point failure - safe to clean up written files
                 self._rollback()
                 raise e
+            except BaseException:
+                # KeyboardInterrupt / SystemExit are asynchronous: they can land
+                # AFTER the commit point (e.g. while the lock is being released),
+                # so the outcome is unknown here. Deactivate the transaction but
+                # KEEP its files, exactly as for an ambiguous commit - otherwise
+                # the context manager's rollback deletes data files that a
+                # durable snapshot already references.
+                self._rollback(delete_files=False)
+                raise
 
         # This line should not be reached if max_retries > 0, but added for completeness
         self._rollback()
